@@ -19,6 +19,7 @@ func NewStringScanner(content string) *StringScanner {
 		line:     1,
 		column:   0,
 	}
+	c.verifEvent("new")
 	return &c
 }
 
@@ -64,6 +65,7 @@ func (c *StringScanner) isColumn(charAt rune) bool {
 // Read character from the top of the stream.
 //	ReturnsЖ a read character or <code>-1</code> if stream processed to the end.</returns>
 func (c *StringScanner) Read() rune {
+	defer c.verifEvent("read")
 	// Skip if we are at the end
 	if (c.position + 1) > len(c.content) {
 		return -1
@@ -143,6 +145,7 @@ func (c *StringScanner) PeekColumn() int {
 
 // Unread puts the specified character to the top of the stream.
 func (c *StringScanner) Unread() {
+	defer c.verifEvent("unread")
 	// Skip if we are at the beginning
 	if c.position < 0 {
 		return
@@ -198,6 +201,7 @@ func (c *StringScanner) UnreadMany(count int) {
 
 // Reset scanner to the initial position
 func (c *StringScanner) Reset() {
+	defer c.verifEvent("reset")
 	c.position = -1
 	c.line = 1
 	c.column = 0
